@@ -492,7 +492,14 @@ def type_ok(kind, col):
             return True
         return col.dtype.kind in ('fiub' if kind in ('float', 'optfloat') else 'iub')
     if kind in ('str', 'unionstr'):
-        return isinstance(col, enc) and _same_encoding(col.encoding, T['BaseEncoding'])
+        # a `str` column is text in any character encoding: base (ASCII) or a one-to-one alphabet encoding (the documented way
+        # to re-encode a sequence column is bnp.replace(entry, sequence=as_encoded_array(..., DNAEncoding)))
+        if not isinstance(col, enc):
+            return False
+        if _same_encoding(col.encoding, T['BaseEncoding']):
+            return True
+        one = getattr(col.encoding, 'is_one_to_one_encoding', None)
+        return bool(one and one())
     if kind == 'id':
         return isinstance(col, T['StringArray']) or (isinstance(col, enc) and _same_encoding(col.encoding, T['BaseEncoding']))
     if kind == 'strlist':
@@ -1206,11 +1213,13 @@ def explore(res, tname, n, route, depth, deadline, split=(0, 1)):
 # ====================================================================== construction clause (shape A)
 GIVEN = ['text', 'numeric-text', 'ints', 'floats', 'bools', 'nested-ints', 'nested-text', 'none', 'text-array', 'float-array',
          'object-array', 'encoded-text', 'string-array', 'ragged-ints', 'table', 'entries', 'scalar-int', 'scalar-text', 'dicts',
-         'genotype-text']
+         'genotype-text', 'dna-text']
+GIVEN_TEXT = {'text': ['x', 'yy'], 'numeric-text': ['3', '4'], 'text-array': ['x', 'yy'], 'encoded-text': ['x', 'yy'],
+              'string-array': ['x', 'yy'], 'dna-text': ['AC', 'GTT']}      # the text rows a text-like argument stands for
 GIVEN_CLASS = {'text': 'text', 'numeric-text': 'text', 'text-array': 'text', 'encoded-text': 'text', 'string-array': 'text',
                'scalar-text': 'scalar', 'ints': 'int', 'bools': 'int', 'floats': 'float', 'float-array': 'float',
                'nested-ints': 'nested', 'nested-text': 'nested', 'ragged-ints': 'nested', 'none': 'none', 'object-array': 'object',
-               'table': 'table', 'entries': 'entries', 'scalar-int': 'scalar', 'dicts': 'object', 'genotype-text': 'text'}
+               'table': 'table', 'entries': 'entries', 'scalar-int': 'scalar', 'dicts': 'object', 'genotype-text': 'text', 'dna-text': 'text'}
 DECLARED = ['int', 'float', 'bool', 'optint', 'str', 'id', 'intlist', 'dna', 'strand', 'qual', 'table', 'gt']
 
 
@@ -1227,6 +1236,7 @@ def given_value(g):
         'entries': lambda: [inner.dataclass(1, 'p'), inner.dataclass(2, 'q')], 'scalar-int': lambda: 7, 'scalar-text': lambda: 'xy',
         'dicts': lambda: [{'a': 1}, {'a': 2}],
         'genotype-text': lambda: T['as_encoded_array'](['0/1\t1/1\t', '0|0\t./.\t']),
+        'dna-text': lambda: T['as_encoded_array'](['AC', 'GTT'], T['bnp'].DNAEncoding),
     }[g]()
 
 
@@ -1234,7 +1244,7 @@ def given_value(g):
 VALID_GIVEN = {
     'int': {'ints', 'bools'}, 'optint': {'ints', 'bools'}, 'float': {'ints', 'floats', 'bools', 'float-array'}, 'bool': {'bools'},
     'str': {'text', 'numeric-text', 'encoded-text'}, 'id': {'text', 'numeric-text', 'string-array'},
-    'intlist': {'nested-ints', 'ragged-ints'}, 'qual': {'nested-ints', 'ragged-ints'}, 'table': {'table'}, 'dna': set(), 'strand': set(),
+    'intlist': {'nested-ints', 'ragged-ints'}, 'qual': {'nested-ints', 'ragged-ints'}, 'table': {'table'}, 'dna': {'dna-text'}, 'strand': set(),
     'gt': {'genotype-text'},
 }
 
@@ -1271,6 +1281,18 @@ def construct_case(declared, given, route):
         return 'fail', ('columns-unequal-length', feats, 2, 'len raises %s' % type(e).__name__, tb_string(e)), 1
     if l != 2 or n != 2 or len(t.anchor) != 2:
         return 'fail', ('columns-unequal-length', feats, [2, 2], [l, len(t.anchor)], None), 1
+    if declared in ('str', 'id', 'dna') and given in GIVEN_TEXT:
+        # a text-like argument accepted for a text column: the column reads back as the argument's text, whatever encoding
+        # the argument came in
+        try:
+            got = [str(x) for x in observe.column(col)]
+        except observe.ObserverError:
+            raise
+        except Exception as e:
+            got = 'unreadable: %s' % type(e).__name__
+        if got != GIVEN_TEXT[given]:
+            return 'fail', ('construction-stores-other-text', dict(feats, given_encoding='dna' if given == 'dna-text' else 'ascii/str'),
+                            GIVEN_TEXT[given], got, None), 1
     return 'ok:' + describe(col).split('[')[0].split('<')[0], None, 1
 
 
